@@ -1,0 +1,94 @@
+//go:build verif
+
+package waddrmgr
+
+import "fmt"
+
+// VerifBuf describes one in-memory clear-text buffer reachable from the
+// manager: its name and whether it currently holds no key material (nil,
+// empty or all zero).
+type VerifBuf struct {
+	Name  string
+	Clear bool
+}
+
+func verifAllZero(b []byte) bool {
+	for _, x := range b {
+		if x != 0 {
+			return false
+		}
+	}
+	return true
+}
+
+// VerifClearText reports, for every clear-text private buffer reachable from
+// the manager (master and crypto keys, hashed passphrase, account private
+// keys, clear-text private keys and scripts of every cached address including
+// the per-account last addresses, and the derived private key cache), whether
+// it is wiped. It exists only in builds with the verif tag.
+func (m *Manager) VerifClearText() []VerifBuf {
+	m.mtx.RLock()
+	defer m.mtx.RUnlock()
+
+	var out []VerifBuf
+	add := func(name string, clear bool) {
+		out = append(out, VerifBuf{Name: name, Clear: clear})
+	}
+
+	if m.masterKeyPriv != nil {
+		add("masterKeyPriv.Key", m.masterKeyPriv.Key == nil ||
+			verifAllZero(m.masterKeyPriv.Key[:]))
+	}
+	if ck, ok := m.cryptoKeyPriv.(*cryptoKey); ok {
+		add("cryptoKeyPriv", verifAllZero(ck.CryptoKey[:]))
+	}
+	if ck, ok := m.cryptoKeyScript.(*cryptoKey); ok {
+		add("cryptoKeyScript", verifAllZero(ck.CryptoKey[:]))
+	}
+	add("hashedPrivPassphrase", verifAllZero(m.hashedPrivPassphrase[:]))
+
+	addrBuf := func(prefix string, ma ManagedAddress) {
+		switch a := ma.(type) {
+		case *managedAddress:
+			a.privKeyMutex.Lock()
+			add(prefix+".privKeyCT", verifAllZero(a.privKeyCT))
+			a.privKeyMutex.Unlock()
+		case *scriptAddress:
+			a.scriptMutex.Lock()
+			add(prefix+".scriptClearText(script)",
+				verifAllZero(a.scriptClearText))
+			a.scriptMutex.Unlock()
+		case *witnessScriptAddress:
+			a.scriptMutex.Lock()
+			add(prefix+".scriptClearText(witness-script)",
+				!a.isSecretScript || verifAllZero(a.scriptClearText))
+			a.scriptMutex.Unlock()
+		case *taprootScriptAddress:
+			a.scriptMutex.Lock()
+			add(prefix+".scriptClearText(taproot-script)",
+				!a.isSecretScript || verifAllZero(a.scriptClearText))
+			a.scriptMutex.Unlock()
+		}
+	}
+
+	for scope, s := range m.scopedManagers {
+		s.mtx.RLock()
+		for num, ai := range s.acctInfo {
+			p := fmt.Sprintf("%v/acct%d", scope, num)
+			add(p+".acctKeyPriv", ai.acctKeyPriv == nil)
+			if ai.lastExternalAddr != nil {
+				addrBuf(p+".lastExternalAddr", ai.lastExternalAddr)
+			}
+			if ai.lastInternalAddr != nil {
+				addrBuf(p+".lastInternalAddr", ai.lastInternalAddr)
+			}
+		}
+		for _, ma := range s.addrs {
+			addrBuf(fmt.Sprintf("%v/addrs[%T]", scope, ma), ma)
+		}
+		add(fmt.Sprintf("%v/privKeyCache", scope), s.privKeyCache.Len() == 0)
+		s.mtx.RUnlock()
+	}
+
+	return out
+}
